@@ -5,22 +5,25 @@
      ev / vis      live / searchable event ids per organisation and index  (abstract layer)
      impl[o][e]    the ids the transcription of the implementation returns (drift check only)
    Only histories in canonical form are generated (GenNext): an operation that cannot change any
-   answer is never taken (flush with nothing buffered, rotate with nothing to rotate, deleting a
-   name no organisation has, alias to an index the organisation does not have). *)
+   answer is never taken (flush with nothing buffered, rotate with nothing to rotate, deleting an
+   expression that names no index of any organisation, alias to an index the organisation does not have). *)
 EXTENDS Tenancy, TenancyConsts, Json, IOUtils
+CONSTANT GenMode      \* "plain": the operations of Next; "segs": ingest+rotate as one step instead of a bare rotate (segment-rich histories)
 VARIABLE hist
 Obs == [op |-> last',
         expand |-> [o \in Orgs |-> [e \in Exprs |-> Expand(o, e)']],
         ev |-> ev', vis |-> vis',
-        impl |-> [o \in Orgs |-> [e \in Exprs |-> QueryI(o, e)']]]
+        impl |-> [o \in Orgs |-> [e \in Exprs |-> QueryI(o, e)']],
+        segs |-> [o \in Orgs |-> [i \in Indexes |-> Cardinality({r \in rot' : r.org = o /\ r.idx = i})]]]
 Buffered == \E o \in Orgs, i \in Indexes : open[o][i] # {}
 Unrotated == \E o \in Orgs, i \in Indexes : open[o][i] \cup un[o][i] # {}
 GenNext == /\ \/ \E o \in Orgs, i \in Indexes : Ingest(o, i)
-              \/ \E o \in Orgs, i \in Indexes : (\E p \in Orgs : i \in tab[p] \/ i \in vtMem[p]) /\ DeleteIndex(o, i)
+              \/ \E o \in Orgs, e \in DelExprs : (\E p \in Orgs : Expand(p, e) \cap (tab[p] \cup vtMem[p]) # {}) /\ DeleteIndex(o, e)
               \/ \E o \in Orgs, a \in Aliases, i \in Indexes : i \in tab[o] /\ <<a, i>> \notin al[o] /\ AddAlias(o, a, i)
               \/ \E o \in Orgs, a \in Aliases, i \in Indexes : RemoveAlias(o, a, i)
               \/ (Buffered /\ Flush)
-              \/ (Unrotated /\ Rotate)
+              \/ (GenMode = "plain" /\ Unrotated /\ Rotate)
+              \/ (GenMode = "segs" /\ \E o \in Orgs, i \in Indexes : IngestRotate(o, i))
            /\ hist' = Append(hist, Obs)
 GenInit == Init /\ hist = <<>>
 GenSpec == GenInit /\ [][GenNext]_<<vars, hist>>
